@@ -218,9 +218,28 @@ CLAIMED = {
              "insertion keeps lengths and well-formedness (polynomial and rational), removal/update rebind to a well-formed "
              "vector, a consistent polynomial curve evaluates at every u of its interval.",
         design="7/C15",
-        technique="Coq proof (per-operation preservation lemmas) + state-machine correspondence on operation histories by vm_compute",
-        note="The invariant-by-induction theorem over arbitrary histories (Proofs/StateProofs.v) is in progress; aliasing "
-             "(reference semantics of KnotVector objects) is observed, not modelled."),
+        technique="Coq proof (invariant by induction over operation histories, atomicity) + state-machine correspondence on operation histories by vm_compute",
+        note="Unbounded theorems (Props/C15.v): for the model's state machine over 12 mutators the invariant holds in every state "
+             "reachable by any operation sequence (induction over histories), failing steps leave the state unchanged, and every "
+             "reachable polynomial state with control points evaluates at every u of its interval; the invariant needs 'weights "
+             "only with control points' (machine-checked counterexample without it). Aliasing (reference semantics of KnotVector "
+             "objects, copies) is observed through snapshots, not modelled."),
+    "C16": dict(
+        text="Decided per generated case: each logical operation (evaluation, basis functions, knot insertion and its removal, "
+             "degree elevation and its reduction, split and join, + - * /, fit_curve, fit_points, default integration) is run "
+             "with Fraction data, with int control points where integral, with Python floats, with numpy.float64 and "
+             "(evaluation, insertion, elevation, split) with control points of a class that only implements point + point and "
+             "scalar * point; every returned number is collected: the exact runs must contain only int/Fraction and agree "
+             "exactly with each other (compared in Coq), the float runs must agree within relative 1e-9, the generic-point run "
+             "must agree exactly. That the exact value is the mathematically exact one is the content of the value theorems of "
+             "C01, C02, C04-C08, C10-C12 (each tied by its own correspondence). Theorems (Props/C16.v): the specification and "
+             "the model's evaluation do not depend on how a rational is written (invariance under == of parameters and knots), "
+             "and the model's values are the exact Cox-de Boor / NURBS values.",
+        design="7/C16",
+        technique="Coq proof (setoid invariance of specification and model; exact-value theorems) + cross-representation differential execution compared by vm_compute",
+        note="PART: the float clause and the 'only + and scalar*' clause are tests on the implementation (well-conditioned "
+             "generator: degree <= 3, uniform knots, weights in [1/2, 4]); the model is not parameterised over an abstract "
+             "point type. Derivate is outside C16's list and does return floats."),
     "C17": dict(
         text="Unbounded theorems (Props/C17.v), for all well-formed operands whose distinct knots are >= 1e-6 apart: U|V has "
              "degree max(p,q) and, for every value x, multiplicity max of the degree-lifted multiplicities (per-knot maximum at "
